@@ -174,7 +174,8 @@ def _run_obligation(ob, units, astinfo, workdir, tier):
         entry = ob.get('entry', 'main')
         dflags = ['-D%s=%s' % (k, v) for k, v in defs.items()] + ['-DVP_ENTRY=%s' % entry]
         gb = os.path.join(wd, 'a.gb')
-        rc, out, err, _ = run(['goto-cc', '-I', wd, '-I', SPECS, '-I', HARNESS] + dflags + [os.path.join(HARNESS, ob['harness']), '-o', gb], 300)
+        res['cc'] = ['goto-cc', '-I', wd, '-I', SPECS, '-I', HARNESS] + dflags + [os.path.join(HARNESS, ob['harness'])]
+        rc, out, err, _ = run(res['cc'] + ['-o', gb], 300)
         if rc != 0:
             raise Undecided('goto-cc failed (extraction break or spec/harness out of date):\n' + (err or out)[-3000:])
         cur = gb
@@ -256,9 +257,17 @@ def _run_obligation(ob, units, astinfo, workdir, tier):
     res['secs'] = round(time.time() - t0, 2)
     return res
 
-def trace_for(res, timeout=900):
-    """re-run a failed obligation with --trace and return the counterexample assignments of harness inputs"""
-    rc, out, err, secs = run(['cbmc', res['gb']] + res['flags'] + ['--trace'], timeout)
+def trace_for(res, timeout=900, extra_defines=None):
+    """re-run a failed obligation with --trace and return the counterexample assignments of harness inputs.
+    extra_defines: recompile the harness with additional -D (e.g. VP_REPLAYABLE: restrict the start state to states
+    that a canonical API history constructs, so that the counterexample can be replayed on the real C++)"""
+    gb = res['gb']
+    if extra_defines:
+        if res.get('enforce') or res.get('replace') or not res.get('cc'): return {}, ''
+        gb = os.path.join(res['workdir'], 'replayable.gb')
+        rc, out, err, _ = run(res['cc'] + ['-D%s=%s' % kv for kv in extra_defines.items()] + ['-o', gb], 300)
+        if rc != 0: return {}, 'recompilation with %s failed' % extra_defines
+    rc, out, err, secs = run(['cbmc', gb] + res['flags'] + ['--trace'], timeout)
     vals = {}
     try:
         msgs = json.loads(out)
